@@ -19,10 +19,18 @@ fn toks<T: TokenStream>(mut ts: T) -> String {
                 None => s.push_str(":NOMSG"),
             }
         }
-        out.push(s);
         if k == TokenKind::Eof {
+            // a message still parked when the stream ends (an unterminated conditional):
+            // `ParserBase::finish` reports it at the end of the text
+            match ts.take_error() {
+                Some(m) if !m.is_empty() => s.push_str(":P"),
+                Some(_) => s.push_str(":PEMPTY"),
+                None => {}
+            }
+            out.push(s);
             break;
         }
+        out.push(s);
     }
     out.join(" ")
 }
